@@ -4,6 +4,7 @@ import (
 	"encoding/json"
 	"flag"
 	"fmt"
+	"math/rand"
 	"os"
 	"path/filepath"
 	"sort"
@@ -349,7 +350,7 @@ func cmdCheck(args []string) int {
 		}
 		violations++
 		rp := writeReplay(*replayDir, *prop, o, v)
-		suffix := ""
+		suffix := " replayed=confirmed"
 		if !strings.Contains(rp.outcome, "confirmed") {
 			suffix = " no-failing-input-found"
 		}
@@ -555,10 +556,84 @@ func writeReplay(dir, prop string, o *Obligation, v *Verifier) replayResult {
 		}
 		os.RemoveAll(tmp)
 	}
+	if outcome != "confirmed" && len(o.ModelVars) > 0 && witnessBudget > 0 {
+		// witness search: a few random small inputs in the shape of the function's parameters, each replayed on the
+		// real code with the violated clause as the test; the first input on which the clause fails is recorded
+		witnessBudget--
+		seed := int64(1)
+		fmt.Sscanf(os.Getenv("VERIF_SEED"), "%d", &seed)
+		rng := rand.New(rand.NewSource(seed*7919 + int64(len(o.Name))))
+		saved := o.Model
+		deadline := time.Now().Add(45 * time.Second)
+		tried := 0
+		for k := 0; k < 24 && time.Now().Before(deadline); k++ {
+			o.Model = randomModel(o, rng)
+			res := v.replayModel(o)
+			tried++
+			if res != nil && res["outcome"] == "confirmed" {
+				outcome = "confirmed"
+				rp["model"] = o.Model
+				rp["model_note"] = "input found by the random witness search (not a solver model)"
+				rp["replay"] = res
+				break
+			}
+		}
+		rp["witness_search"] = fmt.Sprintf("%d random inputs tried", tried)
+		if outcome != "confirmed" {
+			o.Model = saved
+		}
+	}
 	rp["outcome"] = outcome
 	data, _ := json.MarshalIndent(rp, "", " ")
 	os.WriteFile(path, data, 0o644)
 	return replayResult{path, outcome}
+}
+
+// at most this many violated obligations per run get a witness search (each costs up to 45 s)
+var witnessBudget = 3
+
+// randomModel: small values in the roles the replay generator understands.
+func randomModel(o *Obligation, rng *rand.Rand) map[string]string {
+	ints := []int64{-1, 0, 0, 1, 1, 2, 3, 4, 5, 7, 8, 63, 64, 127, 128, 255, 256, 1000}
+	runes := []int64{0, 9, 10, 32, 36, 45, 48, 57, 65, 66, 90, 97, 98, 122, 123, 127, 128, 233, 256, 0x212A, 0xFFFD, 0x10000, 0x10FFFF}
+	m := map[string]string{}
+	lens := map[string]int64{}
+	for _, mv := range o.ModelVars {
+		switch mv.Role {
+		case "len", "strlen":
+			n := int64(rng.Intn(6))
+			lens[mv.Path] = n
+			m[mv.Name] = fmt.Sprint(n)
+		}
+	}
+	for _, mv := range o.ModelVars {
+		switch mv.Role {
+		case "scalar":
+			if mv.GoType == "bool" {
+				m[mv.Name] = fmt.Sprint(rng.Intn(2) == 0)
+			} else if strings.Contains(mv.GoType, "rune") || mv.GoType == "int32" {
+				m[mv.Name] = fmt.Sprint(runes[rng.Intn(len(runes))])
+			} else {
+				m[mv.Name] = fmt.Sprint(ints[rng.Intn(len(ints))])
+			}
+		case "ptr":
+			m[mv.Name] = fmt.Sprint(1000 + rng.Intn(3)) // non-nil, occasionally shared
+		case "sliceref":
+			m[mv.Name] = fmt.Sprint(2000 + rng.Intn(1000))
+		case "elem":
+			if strings.Contains(mv.GoType, "rune") || strings.Contains(mv.GoType, "int32") {
+				m[mv.Name] = fmt.Sprint(runes[rng.Intn(len(runes))])
+			} else if strings.Contains(mv.GoType, "bool") {
+				m[mv.Name] = fmt.Sprint(rng.Intn(2) == 0)
+			} else {
+				m[mv.Name] = fmt.Sprint(ints[rng.Intn(len(ints))])
+			}
+		case "strbyte":
+			bs := []int64{0, 36, 48, 65, 90, 97, 98, 122, 123, 127, 128, 0xC3, 0xA9, 0xEF, 0xBF, 0xBD, 0xFF}
+			m[mv.Name] = fmt.Sprint(bs[rng.Intn(len(bs))])
+		}
+	}
+	return m
 }
 
 // cmdReplay re-runs the generated test stored in a replay file against the repository.
